@@ -5,7 +5,10 @@
                            "found" | "absent" | "commerr" (the driver reports a CommunicationError)
                            | "unsupported" (driver raises UnsupportedTargetError / unknown technology)
                            | "invalid" (sel_req / atr_req of a wrong length)
-     Listen(found)         listen() for a Type F target with / without a reader present
+                           | "ioerror" (the driver raises IOError: host link failure)
+     Listen(kind)          listen(): "found" / "none" (a reader discovers us or not), "unsupported" (the driver
+                           raises UnsupportedTargetError, e.g. a Type B local target), "invalid" (unknown brty:
+                           ValueError), "ioerror" (the driver raises IOError)
      Exchange              exchange() with whatever target the frontend holds
    One action per call (the calls are atomic under the frontend lock); `last` records the outcome the code
    produces, the invariants state the documented contract about that outcome.
@@ -19,7 +22,8 @@ CONSTANTS MaxLen,      \* longest target list
           MaxIter,     \* iterations 1..MaxIter
           MaxOps       \* calls per session
 
-Kinds == {"found", "absent", "unsupported", "invalid", "commerr"}
+Kinds == {"found", "absent", "unsupported", "invalid", "commerr", "ioerror"}
+ListenKinds == {"found", "none", "unsupported", "invalid", "ioerror"}
 Lists == UNION {[1..n -> Kinds] : n \in 0..MaxLen}
 
 VARIABLES target,      \* clf.target: "none" | "remote" | "local"
@@ -33,7 +37,7 @@ NoOp == [op |-> "", kinds |-> <<>>, iters |-> 0, res |-> "", idx |-> 0, sent |->
 Init == target = "none" /\ field = FALSE /\ last = NoOp /\ nops = 0
 
 \* positions at which one scan of the list stops: a target is found, or an exception leaves sense()
-Stops(ks) == {j \in DOMAIN ks : \/ ks[j] \in {"found", "invalid"}
+Stops(ks) == {j \in DOMAIN ks : \/ ks[j] \in {"found", "invalid", "ioerror"}
                                 \/ ks[j] = "unsupported" /\ Len(ks) = 1}
 FirstStop(ks) == CHOOSE j \in Stops(ks) : \A i \in Stops(ks) : j <= i
 \* did any target before position j make the device switch the field on?
@@ -44,6 +48,7 @@ SenseRes(ks) ==
     ELSE LET j == FirstStop(ks) IN
          CASE ks[j] = "found" -> [res |-> "found", idx |-> j]
            [] ks[j] = "invalid" -> [res |-> "ValueError", idx |-> 0]
+           [] ks[j] = "ioerror" -> [res |-> "IOError", idx |-> 0]
            [] ks[j] = "unsupported" -> [res |-> "UnsupportedTargetError", idx |-> 0]
 
 Sense(ks, it) ==
@@ -56,11 +61,15 @@ Sense(ks, it) ==
                      [] OTHER -> SensedBefore(ks, FirstStop(ks))      \* an exception leaves it as it was
     /\ nops' = nops + 1
 
-Listen(found) ==
+ListenRes(k) == CASE k = "found" -> "found" [] k = "none" -> "none" [] k = "unsupported" -> "UnsupportedTargetError"
+                  [] k = "invalid" -> "ValueError" [] k = "ioerror" -> "IOError"
+\* listen() forgets the captured target and mutes the field BEFORE it dispatches on the local target, so the
+\* frontend holds no target however the call ends, unless a reader activated us
+Listen(k) ==
     /\ nops < MaxOps
-    /\ last' = [op |-> "listen", kinds |-> <<>>, iters |-> 0, res |-> IF found THEN "found" ELSE "none", idx |-> 0,
+    /\ last' = [op |-> "listen", kinds |-> <<k>>, iters |-> 0, res |-> ListenRes(k), idx |-> 0,
                 sent |-> "", had |-> target]
-    /\ target' = IF found THEN "local" ELSE "none"
+    /\ target' = IF k = "found" THEN "local" ELSE "none"
     /\ field' = FALSE
     /\ nops' = nops + 1
 
@@ -73,7 +82,7 @@ Exchange ==
     /\ nops' = nops + 1
 
 Next == \/ \E ks \in Lists, it \in 1..MaxIter : Sense(ks, it)
-        \/ \E f \in BOOLEAN : Listen(f)
+        \/ \E k \in ListenKinds : Listen(k)
         \/ Exchange
 Spec == Init /\ [][Next]_vars
 
@@ -91,15 +100,17 @@ UnsupportedIgnoredP(x) ==
     IsSense(x) =>
       /\ (x.res = "UnsupportedTargetError") = (Len(x.kinds) = 1 /\ x.kinds[1] = "unsupported")
       /\ (Len(x.kinds) > 1 /\ (\E i \in DOMAIN x.kinds : x.kinds[i] = "found")
-            /\ (\A i \in DOMAIN x.kinds : x.kinds[i] # "invalid")) => x.res = "found"
+            /\ (\A i \in DOMAIN x.kinds : x.kinds[i] \notin {"invalid", "ioerror"})) => x.res = "found"
 \* exceptions only as documented
 RaisesP(x) ==
     IsSense(x) =>
-      /\ x.res \in {"found", "none", "UnsupportedTargetError", "ValueError"}
+      /\ x.res \in {"found", "none", "UnsupportedTargetError", "ValueError", "IOError"}
       /\ x.res = "ValueError" => \E i \in DOMAIN x.kinds : x.kinds[i] = "invalid"
+      /\ x.res = "IOError" => \E i \in DOMAIN x.kinds : x.kinds[i] = "ioerror"
 \* nothing found: the field is off when sense() returns None
 MuteWhenNoneP(x, f) == (IsSense(x) /\ x.res = "none") => ~f
-\* clf.target is exactly what the LAST sense / listen found, never a target of an earlier call
+\* clf.target is exactly what the LAST sense / listen found, never a target of an earlier call - in particular
+\* it is None after a sense / listen that found nothing, whether it returned None or ended in an exception
 TargetFreshP(x, t) ==
     /\ IsSense(x) => t = IF x.res = "found" THEN "remote" ELSE "none"
     /\ x.op = "listen" => t = IF x.res = "found" THEN "local" ELSE "none"
@@ -123,4 +134,6 @@ W_StaleDropped == ~(last.op = "exchange" /\ last.sent = "nothing" /\ nops = 3)
 W_ValueError == ~(IsSense(last) /\ last.res = "ValueError" /\ Len(last.kinds) > 1)
 W_NoneMuted == ~(IsSense(last) /\ last.res = "none" /\ last.had = "remote")
 W_ExchangeNothing == ~(last.op = "exchange" /\ last.had = "none")
+W_ListenRaisedAfterCapture == ~(last.op = "listen" /\ last.res = "UnsupportedTargetError" /\ last.had = "remote")
+W_SenseRaisedAfterCapture == ~(IsSense(last) /\ last.res \in {"ValueError", "IOError", "UnsupportedTargetError"} /\ last.had = "local")
 =============================================================================
